@@ -813,7 +813,7 @@ func init() {
 						if o.NilStream || !bytes.Equal(o.Replay, data) || o.End != "eof" {
 							c.res.fail(Failure{Class: "C07:replay:" + which, Desc: fmt.Sprintf("returned stream does not replay the input (%s, %d bytes, schedule %s)", name, len(data), sc.Name),
 								Input: map[string]interface{}{"input": name, "loader": which, "bytes": len(data), "sched": sc.Name, "construction": "SOI + 145 COM segments of 65533 random bytes + a small JPEG / signature+IHDR + 9 tEXt chunks of 1 MiB + a small PNG"},
-								Got: fmt.Sprintf("%d bytes, first difference at %d, end=%s", len(o.Replay), firstDiff(o.Replay, data), o.End), Want: fmt.Sprintf("%d bytes", len(data))})
+								Got:   fmt.Sprintf("%d bytes, first difference at %d, end=%s", len(o.Replay), firstDiff(o.Replay, data), o.End), Want: fmt.Sprintf("%d bytes", len(data))})
 						}
 					}
 				}
